@@ -1362,7 +1362,7 @@ class Driver:
         setter = next((f for f in c["methods"] if f["qname"] == p["setter"]), None) if p["setter"] else None
         name = p["name"]
         w = recv.w
-        if setter is not None and r.random() < 0.5 and not recv.const:
+        if setter is not None and r.random() < 0.5:
             g = dict(kind="method", owner=c["qname"], name=setter["name"], fns=[setter])
             how = r.random()
             pt = setter["params"][0]["type"]
@@ -1408,7 +1408,23 @@ class Driver:
         self.trace()
         self.count("member_accesses")
         self.features.add(f"member:{kind}:{tkind(t)}")
-        if not mm["const"] and not recv.const and r.random() < 0.5:
+        if not mm["const"] and recv.const and not mm["static"]:
+            # assignment through a const view: TypeError and the member keeps its value
+            a = self.good_arg(t if t["k"] != "string" else dict(k="string"))
+            before = peek(w.this)
+            self.features.add("member:const-view")
+            try:
+                setattr(w, mm["name"], a.py())
+                self.bad(f"no-typeerror:const-this:member-set", member=mm["qname"], value=a.desc())
+            except TypeError:
+                pass
+            except Exception as ex:
+                self.bad(f"wrong-exception:got={type(ex).__name__},want=TypeError:const-this:member-set", member=mm["qname"])
+            if self.pending():
+                self.bad("returned-with-exception-set:const-this:member-set", member=mm["qname"])
+            if peek(w.this) != before:
+                self.bad("member-changed-through-const-view", member=mm["qname"], value=a.desc())
+        elif not mm["const"] and not recv.const and r.random() < 0.5:
             a = self.good_arg(t if t["k"] != "string" else dict(k="string"))
             try:
                 setattr(w, mm["name"], a.py())
@@ -1530,6 +1546,90 @@ class Driver:
             if not ok:
                 self.bad(f"result-mismatch:ret=sequence-element:{tkind(elt['ret'])}", seq=s["qname"], index=i, expected=lg, got=repr(v))
 
+    def const_view(self, q):
+        """a const wrapper (this_const) of an instance of exactly class q, made through a `const K*` / `const K&` method"""
+        have = [t for t in self.pool if t.cls == q and t.const]
+        if have and self.rng.random() < 0.7:
+            return self.rng.choice(have)
+        gs = [g for g in self.groups.values() if g["kind"] == "method" and g["owner"] == q and len(g["fns"]) == 1 and
+              g["fns"][0].get("returns") == "this" and g["fns"][0]["ret"].get("mode") in ("cptr", "cref")]
+        if gs and any(t.cls == q and not t.const for t in self.pool):
+            for _ in range(4):
+                t = self.make_call(self.rng.choice(gs), "pos")
+                if t is not None and t.const and t.cls == q:
+                    return t
+        return self.rng.choice(have) if have else None
+
+    def do_setitem_const(self, c):
+        """obj[i] = v through a const view must raise TypeError, run no body and leave the items alone"""
+        q = c["qname"]
+        recv = self.const_view(q)
+        if recv is None or not recv.w.this_const:
+            return
+        ia = c["item_array"]
+        f1 = next(f for f in c["methods"] if f.get("item_ref"))
+        item = getattr(self.lib, "vf_item_" + q.replace("::", "_"))
+        item.argtypes = [ctypes.c_void_p, ctypes.c_int]
+        item.restype = ctypes.c_int
+        w = recv.w
+        idx = self.rng.randrange(4)
+        v = self.rng.choice([0, 7, -1, 123456])
+        kind = "sequence" if ia["seq"] else "mapping"
+        self.step(f"setitem-const {q}[{idx}] on iid={recv.iid}")
+        self.trace()
+        before = [item(w.this, i) for i in range(4)]
+        self.count("item_assignments_on_const_view")
+        self.features.add("setitem:const-view:" + kind)
+        exc = None
+        try:
+            w[idx] = v
+        except Exception as ex:
+            exc = type(ex).__name__
+        pend = self.pending()
+        ev, created, destroyed = self.trace()
+        after = [item(w.this, i) for i in range(4)]
+        if exc is None:
+            self.bad(f"no-typeerror:const-this:setitem:{kind}", cls=q, index=idx, value=v, before=before, after=after)
+        elif exc != "TypeError":
+            self.bad(f"wrong-exception:got={exc},want=TypeError:const-this:setitem:{kind}", cls=q)
+        if pend:
+            self.bad(f"returned-with-exception-set:exc={pend}:const-this:setitem", cls=q)
+        if any(eid == f1["eid"] for eid, fl, l in ev) or after != before:
+            self.bad(f"item-changed-through-const-view:{kind}", cls=q, index=idx, value=v, before=before, after=after,
+                     trace=[l for _, _, l in ev][:4])
+
+    def do_iadd_const(self):
+        """x += y on a const view: the in-place operator must not run (Python may fall back to x + y, which is const)"""
+        cands = [(c, f) for c in self.m["classes"] for f in c["methods"] if f.get("operator") == "+="]
+        if not cands:
+            return
+        c, f = self.rng.choice(cands)
+        q = c["qname"]
+        recv = self.const_view(q)
+        rhs = self.pick_obj(q)
+        if recv is None or rhs is None or not recv.w.this_const:
+            return
+        self.step(f"iadd-const {q} on iid={recv.iid}")
+        self.trace()
+        st0 = self.state(q, recv.w)
+        self.count("inplace_operators_on_const_view")
+        self.features.add("iadd:const-view")
+        x = recv.w
+        res = None
+        try:
+            x += rhs.w
+            res = x
+        except Exception:
+            pass
+        self.pending()
+        ev, created, destroyed = self.trace()
+        if any(eid == f["eid"] for eid, fl, l in ev) or self.state(q, recv.w) != st0:
+            self.bad("state-changed-through-const-view:inplace-operator", cls=q, trace=[l for _, _, l in ev][:4])
+        x = None
+        if res is not None and res is not recv.w:
+            self.adopt(res, "iadd-const")
+        res = None
+
     def do_setitem(self):
         r = self.rng
         cands = [c for c in self.m["classes"] if c.get("item_array")]
@@ -1537,6 +1637,8 @@ class Driver:
             return
         c = r.choice(cands)
         q = c["qname"]
+        if r.random() < 0.35:
+            return self.do_setitem_const(c)
         recv = self.receiver_for(q, need_nonconst=True)
         if recv is None or recv.cls != q:
             return
@@ -1691,8 +1793,17 @@ class Driver:
                 ev, created, destroyed = self.trace()
                 if destroyed or created:
                     self.bad("gc-changed-ledger", destroyed=destroyed, created=created)
-            else:
+            elif x < 0.985:
                 self.do_copy()
+            else:
+                self.do_iadd_const()
+        # const views of every item-assignment class are written to at least twice per history
+        if not only:
+            for c in self.m["classes"]:
+                if c.get("item_array"):
+                    self.do_setitem_const(c)
+                    self.do_setitem_const(c)
+            self.do_iadd_const()
         # every remaining group once more (A, B, A)
         for g in reversed(others):
             if g["kind"] != "ctor":
